@@ -156,10 +156,11 @@ def run_component(c, res):
     class Push:
         kind = "push"
 
-        def __init__(self, name, burst, obedient):
+        def __init__(self, name, burst, obedient, spawn=False):
             self.name, self.burst, self.obedient = name, burst, obedient
             self.last = None
             self.hist = []
+            self.spawn = spawn      # registers one more push producer (a new subchannel) from inside its first turn
 
         def pauseProducing(self):
             self.last = "pause"
@@ -170,6 +171,18 @@ def run_component(c, res):
             self.last = "resume"
             self.hist.append("r")
             log.append(("resume", self.name, transport_blocked()))
+            if self.spawn and len(producers) < 5:
+                self.spawn = False
+                nsc[0] += 1
+                nm = "sc%d" % nsc[0]
+                sc2 = SC(nm)
+                scs[nm] = sc2
+                p2 = Push(nm, 1, True)
+                producers[nm] = p2
+                registered_at[nm] = cur_step[0] + 0.5      # registered during this turn, not before it
+                ib.subchannel_local_open(nsc[0], sc2)
+                ob.subchannel_registerProducer(sc2, p2, True)
+                feats["reg_inside_turn"] += 1
             for _ in range(self.burst):
                 if self.obedient and self.last == "pause":
                     break
@@ -199,6 +212,7 @@ def run_component(c, res):
     last_turn_index = {}
     last_turn_step = {}
     registered_at = {}
+    cur_step = [0]
     feats = collections.Counter()
     bad = []
 
@@ -233,6 +247,7 @@ def run_component(c, res):
                   "request: %r" % (where, cn.read_paused, sorted(s.name for s in paused_req)),
                   "inbound-pause-mismatch:%s" % where[1])
     for step, (op, idx, burst, flag) in enumerate(c["ops"]):
+        cur_step[0] = step
         before = len(log)
         names = sorted(producers)
         try:
@@ -241,7 +256,7 @@ def run_component(c, res):
                 name = "sc%d" % nsc[0]
                 sc = SC(name)
                 scs[name] = sc
-                p = Push(name, burst, flag) if op == "reg_push" else Pull(name, burst)
+                p = Push(name, burst, flag, spawn=(idx % 3 == 0)) if op == "reg_push" else Pull(name, burst)
                 producers[name] = p
                 registered_at[name] = step
                 ib.subchannel_local_open(nsc[0], sc)
